@@ -1,8 +1,206 @@
-//! libFuzzer campaigns (thorough tier only): built and run through cargo-fuzz from /verif/fuzz;
-//! crash artifacts are re-executed through the plain in-process path before being reported.
+//! libFuzzer campaigns (thorough tier only): targets in /verif/fuzz are built with cargo-fuzz and run
+//! with a fixed number of runs from a freshly seeded corpus; crash artifacts are re-executed through
+//! the plain in-process path (no allow-list) before anything is reported.
 use crate::common::*;
+use proptest::strategy::Strategy;
+use serde_json::json;
+use std::process::{Command, Stdio};
+
+const FUZZ_DIR: &str = "/verif/fuzz";
+const RUN_ROOT: &str = "/verif/.build/fuzz-run";
+
+fn seeds_for(ctx: &Ctx, target: &str) -> Vec<Vec<u8>> {
+    let mut v: Vec<Vec<u8>> = Vec::new();
+    let texts: Vec<String> = {
+        let mut t: Vec<String> = Vec::new();
+        if let Ok(rd) = std::fs::read_dir("/repo/examples") {
+            let mut paths: Vec<_> = rd.filter_map(|e| e.ok()).map(|e| e.path()).collect();
+            paths.sort();
+            for p in paths {
+                if let Ok(s) = std::fs::read_to_string(&p) {
+                    t.push(s);
+                }
+            }
+        }
+        let gen = crate::pt::generate(ctx.sub_seed("fuzz-seeds", 0), 120, &crate::c15::base_s().prop_map(|(s, _)| s));
+        t.extend(gen);
+        t
+    };
+    match target {
+        "pre" | "compose" => {
+            for t in texts {
+                if t.len() <= 4096 {
+                    v.push(t.into_bytes());
+                }
+            }
+        }
+        _ => {
+            // line oriented targets: the lines the assembler emits for the sample programs
+            let mut lines: Vec<String> = Vec::new();
+            for t in &texts {
+                if let Ok(a) = crate::pipeline::assemble(&crate::pipeline::strip_comments(t)) {
+                    match target {
+                        "data" => lines.extend(a.data),
+                        "print" => lines.extend(a.code.into_iter().filter(|l| l.starts_with("print"))),
+                        _ => lines.extend(a.code),
+                    }
+                }
+            }
+            lines.sort();
+            lines.dedup();
+            lines.truncate(400);
+            for l in lines {
+                if target == "interp" {
+                    let mut b = vec![0u8; 28];
+                    for k in 0..28 {
+                        b[k] = (splitmix(fnv_str(&l) ^ k as u64) & 0xFF) as u8;
+                    }
+                    b.extend_from_slice(l.as_bytes());
+                    v.push(b);
+                } else {
+                    v.push(l.into_bytes());
+                }
+            }
+            if target == "print" {
+                for l in ["print reg", "print flags", "print mem 0 -> 15", "print mem 1048575:0", "print mem :16", "PRINT MEM 0x10 -> 0x1f"] {
+                    v.push(l.as_bytes().to_vec());
+                }
+            }
+        }
+    }
+    v
+}
+
+fn write_dict(path: &str) {
+    let mut s = String::new();
+    for t in crate::grammar::all_terminals() {
+        if t.chars().all(|c| c.is_ascii_graphic()) && !t.contains('"') && !t.contains('\\') {
+            s.push_str(&format!("\"{}\"\n", t));
+        }
+    }
+    for t in ["0x", "0b", "65535", "65536", "-1", "1048575", "1048576", "offset ", "start:", "<-", "->", "\\x22"] {
+        s.push_str(&format!("\"{}\"\n", t));
+    }
+    let _ = std::fs::write(path, s);
+}
 
 pub fn campaigns(ctx: &Ctx, targets: &[&str]) {
-    let _ = targets;
-    ctx.note("libFuzzer campaigns: not built in this revision");
+    let nightly_ok = Command::new("cargo").args(["+nightly", "fuzz", "--version"]).stdout(Stdio::null()).stderr(Stdio::null()).status().map(|s| s.success()).unwrap_or(false);
+    if !nightly_ok {
+        ctx.note("libFuzzer campaigns skipped: cargo +nightly fuzz is not available");
+        ctx.extra("fuzz", json!({"skipped": "cargo-fuzz unavailable"}));
+        return;
+    }
+    // build (serialised with the other builds: lalrpop regenerates the parsers inside /repo/src)
+    let build = Command::new("bash")
+        .arg("-c")
+        .arg(format!("flock /verif/.build/lock cargo +nightly fuzz build --fuzz-dir {} >/verif/.build/fuzz-build.log 2>&1", FUZZ_DIR))
+        .env("CARGO_NET_OFFLINE", "true")
+        .status();
+    if !build.map(|s| s.success()).unwrap_or(false) {
+        ctx.note("libFuzzer campaigns skipped: fuzz build failed (see /verif/.build/fuzz-build.log)");
+        ctx.extra("fuzz", json!({"skipped": "build failed"}));
+        return;
+    }
+    let jobs = (16 / targets.len().max(1)).max(1);
+    let runs: u64 = std::env::var("VERIF_FUZZ_RUNS").ok().and_then(|s| s.parse().ok()).unwrap_or(1_500_000);
+    let allow: Vec<String> = ctx.open_keys().iter().filter_map(|k| k.split("|panic|").nth(1).map(|s| s.replace('#', ""))).collect();
+    let mut children = Vec::new();
+    for t in targets {
+        let run_dir = format!("{}/{}", RUN_ROOT, t);
+        let _ = std::fs::remove_dir_all(&run_dir);
+        let corpus = format!("{}/corpus", run_dir);
+        let _ = std::fs::create_dir_all(&corpus);
+        for (k, s) in seeds_for(ctx, t).iter().enumerate() {
+            let _ = std::fs::write(format!("{}/seed-{:04}", corpus, k), s);
+        }
+        let dict = format!("{}/dict.txt", run_dir);
+        write_dict(&dict);
+        let mut cmd = Command::new("cargo");
+        cmd.args(["+nightly", "fuzz", "run", "--fuzz-dir", FUZZ_DIR, t, &corpus, "--"])
+            .arg(format!("-runs={}", runs))
+            .arg(format!("-seed={}", (ctx.seed % 0x7FFF_FFFF).max(1)))
+            .args(["-len_control=0", "-max_len=3000", "-timeout=25", "-rss_limit_mb=3000", "-print_final_stats=1"])
+            .arg(format!("-dict={}", dict))
+            .arg(format!("-artifact_prefix={}/", run_dir))
+            .arg(format!("-jobs={}", jobs))
+            .arg(format!("-workers={}", jobs))
+            .current_dir(&run_dir)
+            .env("CARGO_NET_OFFLINE", "true")
+            .env("VFUZZ_ALLOW", allow.join("|"))
+            .stdout(Stdio::null())
+            .stderr(Stdio::null());
+        match cmd.spawn() {
+            Ok(c) => children.push((t.to_string(), run_dir, c)),
+            Err(e) => ctx.note(&format!("fuzz target {}: cannot start: {}", t, e)),
+        }
+    }
+    let mut stats = serde_json::Map::new();
+    for (t, run_dir, mut c) in children {
+        let _ = c.wait();
+        // per-job logs fuzz-<n>.log
+        let mut execs = 0u64;
+        let mut cov = 0u64;
+        let mut corp = 0u64;
+        let mut artifacts: Vec<String> = Vec::new();
+        if let Ok(rd) = std::fs::read_dir(&run_dir) {
+            for e in rd.filter_map(|e| e.ok()) {
+                let name = e.file_name().to_string_lossy().to_string();
+                if name.starts_with("fuzz-") && name.ends_with(".log") {
+                    if let Ok(txt) = std::fs::read_to_string(e.path()) {
+                        for l in txt.lines() {
+                            if let Some(n) = l.strip_prefix("stat::number_of_executed_units:") {
+                                execs += n.trim().parse::<u64>().unwrap_or(0);
+                            }
+                            if l.starts_with('#') && l.contains(" cov: ") {
+                                let f = |key: &str| l.split(key).nth(1).and_then(|x| x.trim().split(|c: char| !c.is_ascii_digit()).next().map(|s| s.to_string())).and_then(|x| x.parse::<u64>().ok()).unwrap_or(0);
+                                cov = cov.max(f(" cov: "));
+                                corp = corp.max(f(" corp: "));
+                            }
+                        }
+                    }
+                } else if name.starts_with("crash-") || name.starts_with("timeout-") || name.starts_with("oom-") || name.starts_with("leak-") {
+                    artifacts.push(name);
+                }
+            }
+        }
+        artifacts.sort();
+        ctx.add_evals(execs);
+        ctx.class(&format!("fuzz/{}/runs", t), execs);
+        stats.insert(t.clone(), json!({"executed_units": execs, "coverage_edges": cov, "corpus": corp, "artifacts": artifacts.len(), "jobs": jobs}));
+        if execs == 0 {
+            ctx.note(&format!("fuzz target {}: no executions recorded (see {}/fuzz-*.log)", t, run_dir));
+        }
+        for a in artifacts.iter().take(20) {
+            let path = format!("{}/{}", run_dir, a);
+            let bytes = std::fs::read(&path).unwrap_or_default();
+            let text_bytes: &[u8] = if t == "interp" && bytes.len() >= 28 { &bytes[28..] } else { &bytes };
+            let text = String::from_utf8_lossy(text_bytes).to_string();
+            if a.starts_with("crash-") {
+                let q = crate::emu::QuietStdout::new();
+                let ps = crate::c15::probe_all(&text, true);
+                drop(q);
+                if let Some((parser, msg)) = ps.first() {
+                    ctx.fail(Failure {
+                        key: format!("c15|{}|panic|{}", parser, crate::emu::panic_class(msg).chars().take(70).collect::<String>()),
+                        what: format!("[libFuzzer {}] {} aborted (panic) on a {}-byte input: {}", t, parser, text.len(), msg.chars().take(200).collect::<String>()),
+                        replay: json!({"kind":"c15","text":text,"parser":parser}),
+                    });
+                } else {
+                    // keep the artifact where it survives the next campaign
+                    let keep = format!("{}/replays/{}/fuzz-{}-{}", VERIF_DIR, ctx.prop, t, a);
+                    let _ = std::fs::create_dir_all(format!("{}/replays/{}", VERIF_DIR, ctx.prop));
+                    let _ = std::fs::copy(&path, &keep);
+                    ctx.fail(Failure {
+                        key: format!("{}|fuzz|{}|target-only-crash", ctx.prop.to_lowercase(), t),
+                        what: format!("[libFuzzer {}] the fuzz target aborted on an input that the plain path handles (state-dependent or target-specific oracle, e.g. compose: emitted line refused downstream); artifact kept at {}", t, keep),
+                        replay: json!({"kind":"c15","text":text,"parser":t,"artifact":keep}),
+                    });
+                }
+            } else {
+                ctx.inconclusive(&format!("libFuzzer {} produced {} (slow input or memory limit): {}", t, a, path));
+            }
+        }
+    }
+    ctx.extra("fuzz", serde_json::Value::Object(stats));
 }
